@@ -1416,6 +1416,20 @@ class H2Stream:
         self._inbound_window_manager.window_opened(delta)
         self._inbound_window_manager.max_window_size = new_max_size
 
+        # Bytes the user has already acknowledged but that were not yet worth
+        # a WINDOW_UPDATE may be worth one under the new maximum. Nothing else
+        # would ever hand them back if no more data can arrive, so look now.
+        if self.closed:
+            return []
+
+        increment = self._inbound_window_manager.process_bytes(0)
+        if increment:
+            f = WindowUpdateFrame(self.stream_id)
+            f.window_increment = increment
+            return [f]
+
+        return []
+
 
 def _decode_headers(headers, encoding):
     """
